@@ -434,8 +434,19 @@ def suite_reuse_fallback(ctx, res, n):
     from harness import fontgen
     from harness.props import C06
 
-    for _ in range(n):
-        case = fontgen.make_tiny_reuse_case(ctx.rng.getrandbits(32))
+    from harness.props import C02
+    cases = [fontgen.make_tiny_reuse_case(ctx.rng.getrandbits(32)) for _ in range(n)]
+    # the OT-SVG side of the same decision: a reused shape under an elliptical (non-foldable) radial gradient — the residual transform paint and the
+    # reuse transform must be composed in the right order when the fill is written (svg._apply_paint)
+    for i in range(max(4, n // 2)):
+        c = C02.shared_radial_case(ctx.rng, fmt="picosvg")
+        if i % 2 == 0:
+            body = lambda sv: sv[sv.index("</defs>") + 7:sv.rindex("</svg>")]
+            c["svgs"] = [c["svgs"][0].replace("</svg>", body(c["svgs"][1]) + "</svg>")]
+            c["codepoints"] = [[0xE000]]
+            c["id"] += ":one-doc"
+        cases.append(c)
+    for case in cases:
         on = fontgen.build(case)
         off = fontgen.build(dict(case, config=dict(case["config"], reuse_tolerance=-1)), picosvgs=on.get("picosvgs"))
         res.count(key=("reuse-fallback", case["id"]), nontrivial=True)
@@ -458,10 +469,18 @@ def run(ctx, res):
     suite_radial(ctx, res, ctx.budget(500, 10000))
     suite_reuse_fallback(ctx, res, ctx.budget(8, 120))
     suite_compiled(ctx, res, ctx.budget(240, 3000))
+    # accumulation of transform paints above a gradient when an OT-SVG fill is written (Model applyPaintFill, theorems applyPaintFill_eq_fillOf /
+    # otsvg_fill_correct): the tie lives in C02 and is run here too, transform paints being this property's subject
+    from harness.props import C02
+    C02.suite_apply_paint_model(ctx, res, ctx.budget(100, 2000))
 
 
 def search(ctx, res, broken):
     # larger budget with a fresh stream
+    nano.init()
+    suite_reuse_fallback(ctx, res, 40)
+    from harness.props import C06
+    C06.suite_pairs(ctx, res, 60, n_tiny=40)
     suite_transformed(ctx, res, 40000)
     suite_compiled(ctx, res, 1500)
     suite_linear(ctx, res, 5000)
